@@ -124,8 +124,9 @@ def c02(cx):
     lea_glue.apply(cx, ["R-OFFSET-PROVENANCE", "R-EMIT-ORDER"])
 
 
-@prop("C12", 'R-PAIR-COUNTERS (macro nesting level and pending-statement frames are opened only by %macro/%do and '
-             'closed only by %mend/%end, one operation each), the residual-state part of R-CKPT (owners always '
+@prop("C12", 'R-FRAME-BALANCE (on every lex_token path pending-statement frames and the macro nesting level change only '
+             'with %macro/%do/%end/%mend, by exactly one, wherever in the keyword or MacroDo step the operation sits; '
+             'frame pops never empty the stack), the residual-state part of R-CKPT (owners always '
              'resolve their checkpoint), R-PENDING, R-EXPECT-TABLE, and R-WS-ORDER: every mode that gives up at '
              'zero consumption on a possibly-blank character is entered behind the whitespace/comment skipper or a '
              'mode that leaves a non-blank (mode push order; audited table of modes for which a blank is a '
@@ -172,7 +173,7 @@ def c11(cx):
 @prop("C15", 'R-STATE-INVENTORY (no state outside the lexer object), R-NO-ABSOLUTE (no control flow on history '
              "lengths), R-LOOKBEHIND + R-DATALINES-START (statement-start look-behind treats 'no previous token' "
              "like ';' and ignores hidden tokens), R-CKPT (no checkpoint survives a closed boundary), "
-             'R-PAIR-COUNTERS. Decides that no channel other than the declared configuration carries information '
+             'R-FRAME-BALANCE. Decides that no channel other than the declared configuration carries information '
              'across a closed boundary; not equality of results for all (A, B).')
 def c15(cx):
     rules_cfg.r_state_inventory(cx)
